@@ -14,6 +14,7 @@ def main():
     demo = open(os.path.join(src, "demo_test.go")).read()
     m = re.search(r"-run '?\^?(\w+)\$?'?", demo)
     test = m.group(1)
+    tags = "-tags verif " if "-tags verif" in demo else ""   # demonstrations may use the verif hooks to force an interleaving
     pkg = sys.argv[4] if len(sys.argv) > 4 else "."
     if len(sys.argv) <= 4:
         mm = re.search(r"^package (\w+)", demo, flags=re.M)
@@ -26,13 +27,13 @@ def main():
     res = {}
     try:
         shutil.copy(os.path.join(src, "demo_test.go"), os.path.join(wt, pkg, "seed_demo_test.go"))
-        rc, out = sh("go test -vet=off -count=1 -run '%s' ./%s" % (test, pkg), wt)
+        rc, out = sh("go test %s-vet=off -count=1 -run '%s' ./%s" % (tags, test, pkg), wt)
         res["demo_clean_passes"] = rc == 0
         rc, out = sh("git apply %s" % os.path.join(os.path.abspath(src), "patch.diff"), wt)
         res["applies"] = rc == 0
         rc, out = sh("go build ./... && go build -tags verif ./...", wt)
         res["builds"] = rc == 0
-        rc, out = sh("go test -vet=off -count=1 -run '%s' ./%s" % (test, pkg), wt)
+        rc, out = sh("go test %s-vet=off -count=1 -run '%s' ./%s" % (tags, test, pkg), wt)
         res["demo_fails_with_change"] = rc != 0
         res["demo_output_with_change"] = out[-600:]
         os.remove(os.path.join(wt, pkg, "seed_demo_test.go"))
